@@ -8,7 +8,7 @@ CONSTANTS
   NVSpace = "none"
   NCompoundV = "none"
   NKinds = {}
-  FKinds = {"asg", "use", "ret", "ifflag", "ifc", "else", "whflag", "whc", "ifwal", "ifand", "ifor"}
+  FKinds = {"asg", "use", "ret", "ifc", "else", "whc", "ifwal", "ifand", "ifor"}
   FConds = {"nnone"}
   FLits = {"None"}
   FDecls = {"in"}
